@@ -156,6 +156,98 @@ func rsOkFlag(w *World, rel, fn string) {
 		}
 		return true
 	})
+	if found == 0 {
+		// the flag may be computed by a predicate helper: `return x, !anyErrors(...)` where the
+		// helper (possibly through a function literal handed to slices.ContainsFunc) compares
+		// Diagnostic.Level() with a constant; that comparison is then the error predicate.
+		ast.Inspect(fr.Decl.Body, func(x ast.Node) bool {
+			r, ok := x.(*ast.ReturnStmt)
+			if !ok {
+				return true
+			}
+			for _, res := range r.Results {
+				ue, ok := ast.Unparen(res).(*ast.UnaryExpr)
+				if !ok || ue.Op != token.NOT {
+					continue
+				}
+				c, ok := ast.Unparen(ue.X).(*ast.CallExpr)
+				if !ok {
+					continue
+				}
+				f := callee(info, c)
+				if f == nil || f.Pkg() != p.Types {
+					continue
+				}
+				d := w.decls[f.Origin()]
+				if d == nil || d.Body == nil {
+					continue
+				}
+				var cmp *ast.BinaryExpr
+				ast.Inspect(d.Body, func(y ast.Node) bool {
+					be, ok := y.(*ast.BinaryExpr)
+					if !ok || cmp != nil {
+						return true
+					}
+					switch be.Op {
+					case token.LSS, token.LEQ, token.GTR, token.GEQ, token.EQL, token.NEQ:
+						for _, side := range []ast.Expr{be.X, be.Y} {
+							if sc, ok := ast.Unparen(side).(*ast.CallExpr); ok {
+								if sf := callee(info, sc); sf != nil && sf == levelM.Obj {
+									cmp = be
+								}
+							}
+						}
+					}
+					return true
+				})
+				if cmp == nil {
+					continue
+				}
+				found++
+				key := "ok-flag|" + fr.Name
+				var failing, names []string
+				for n := range levels {
+					names = append(names, n)
+				}
+				sort.Slice(names, func(i, j int) bool { return levels[names[i]] < levels[names[j]] })
+				undec := false
+				for _, n := range names {
+					val := func(e ast.Expr) (int64, bool) {
+						e = ast.Unparen(e)
+						if sc, ok := e.(*ast.CallExpr); ok {
+							if sf := callee(info, sc); sf == levelM.Obj {
+								return levels[n], true
+							}
+						}
+						if tv, ok := info.Types[e]; ok && tv.Value != nil {
+							if v, ok := constant.Int64Val(tv.Value); ok {
+								return v, true
+							}
+						}
+						return 0, false
+					}
+					l, ok1 := val(cmp.X)
+					rr, ok2 := val(cmp.Y)
+					if !ok1 || !ok2 {
+						undec = true
+						break
+					}
+					if v, ok := cmpInt(cmp.Op, l, rr); ok && v {
+						failing = append(failing, n)
+					}
+				}
+				switch {
+				case undec:
+					w.undecided(key, cmp.Pos(), "cannot evaluate the error predicate "+render(cmp))
+				case strings.Join(failing, ",") == "ICE,Error":
+					w.ok(key, cmp.Pos(), fmt.Sprintf("the flag is the negation of predicate %s, whose test `%s`, evaluated over the Level domain %v, holds exactly for {ICE, Error}", f.Name(), types.ExprString(cmp), names))
+				default:
+					w.violation(key, cmp.Pos(), fmt.Sprintf("the flag is the negation of predicate %s, whose test `%s` holds for {%s} over the Level domain %v but must hold exactly for {ICE, Error}", f.Name(), types.ExprString(cmp), strings.Join(failing, ", "), names))
+				}
+			}
+			return true
+		})
+	}
 	w.floor("`ok = false` guards in "+fr.Name, found, 1)
 	_ = lv
 }
